@@ -377,7 +377,15 @@ func (s *system) apply(sym int) (string, error) {
 		err := s.request(media, qs)
 		return fmt.Sprintf("n%d", before), err
 	case sym == 17:
-		s.icpt.UnbindLocalStream(s.info)
+		if s.cfg.RTX {
+			// the stream is identified by its SSRC: the description handed to Unbind need not list the
+			// feedback types any more (a renegotiation that removed them precedes the removal of the track)
+			u := *s.info
+			u.RTCPFeedback = nil
+			s.icpt.UnbindLocalStream(&u)
+		} else {
+			s.icpt.UnbindLocalStream(s.info)
+		}
 		m.bound = false
 		return "u", nil
 	case sym == 18:
